@@ -12,7 +12,7 @@ PROP = {
 CLAIM = {
     "engine": "mirrorsim",
     "technique": "stateful property-based testing (rapid op lists in testing/synctest bubbles) with independent ed25519 re-verification of every held signature",
-    "text": "Generated message histories with per-signature corruption are run against one real tmmirror.Mirror; after every step every signature obtainable from views, stores, gossip and state-machine outputs is re-verified with crypto/ed25519 under the prescribed validator set for exactly the target it is filed under, and all-invalid messages must leave a content digest of views and stores unchanged and not be reported accepted.",
+    "text": "Generated message histories with per-signature corruption are run against one real tmmirror.Mirror; after every step every signature obtainable from views, stores, gossip and state-machine outputs - including the commit proofs inside the proposed headers a view holds - is re-verified with crypto/ed25519 under the prescribed validator set for exactly the target it is filed under, and all-invalid messages must leave a content digest of views and stores unchanged and not be reported accepted.",
     "design_ref": "DESIGN.md section 4 C05, section 3.1",
     "note": "Exploration only. Known crash findings (C09-*) are excluded by construction; goroutine order inside concurrent groups is the Go scheduler's.",
 }
